@@ -45,6 +45,12 @@ func init() {
 		assumptions: commonAssumptions,
 		technique:   "abstract interpretation of the deepcopy/clone generators into residual programs + taint/guard-set analyses and a finite resize-state table; predicate tabulation",
 	}
+	checks["C13"] = &checkDef{
+		run: runR_C13,
+		explanation: "Engine R on sort/keys/min/max: sort sorts its own argument in place with package sort and returns it; sort.Strings/Ints/Float64s only on paths that established the exact basic type; sort.Slice's less function is tabulated over element-pair orderings (irreflexive, asymmetric, ascending; indexes only the sorted slice; mirror operands in (i, j) order). keys ranges over the map, appends every range key exactly once unconditionally and returns that slice. min/max: two-value forms tabulated (returns the preceding / following argument); list forms: early return of the default only for an empty list, accumulator seeded and replaced only by list elements, replaced exactly when the new element precedes (min) / follows (max) it and by that very element; min and max residuals mirror each other (R9). R5b: `<`/`>` between values only after an ordered basic kind was established. Not decided: that sort.Slice sorts (stdlib), permutation-ness beyond in-place stdlib sort.",
+		assumptions: append([]string{"a compare helper returns the sign of the ordering of its operands; package sort sorts"}, commonAssumptions...),
+		technique:   "abstract interpretation into residual programs + ordering-table evaluation of less/min/max decisions + structural loop rules",
+	}
 	checks["C07"] = &checkDef{
 		run: func(c *Ctx) {
 			runG4(c.Repo, c.Rep)
